@@ -95,6 +95,10 @@ def _obs(a):
     for k in _SUMMARY_KEYS:
         assert d[k] == getattr(su, k), "as_dict()[%r] = %r, summary.%s = %r" % (k, d[k], k, getattr(su, k))
     assert dict(d["deficiency_one_structural"]) == dict(one)
+    # derived views
+    assert a.explain() == "Deficiency=%s, Linkage-classes=%s, Weakly-reversible=%s" % (su.deficiency, su.n_linkage_classes, su.weakly_reversible), a.explain()
+    assert repr(a) == "<DeficiencyAnalyzer deficiency=%s>" % su.deficiency, repr(a)
+    assert type(a)._is_weakly_reversible(CG) == su.weakly_reversible and a.check_regularity() == one["regular"]
     assert len(a._complexes) == su.n_complexes == CG.number_of_nodes() and len(classes) == su.n_linkage_classes
     return [0,
             [list(map(int, c)) for c in a._complexes],
@@ -111,9 +115,31 @@ def _apply_edit(H, e):
         H.remove_rxn(e[1])
     elif e[0] == "rmsp":
         H.remove_species(e[1])
+    elif e[0] == "rmsp0":
+        H.remove_species(e[1], prune_orphans=False)
+    elif e[0] == "repl":                      # same id, other content
+        eid, rule, l, r = e[1]
+        H.remove_rxn(eid)
+        H.add_rxn({s: c for s, c in l}, {s: c for s, c in r}, rule=rule, edge_id=eid)
+    elif e[0] == "coef":                      # in-place edit of a stored coefficient
+        side = H.edges[e[1]].reactants if e[2] == "l" else H.edges[e[1]].products
+        assert e[3] in side.data
+        side[e[3]] = e[4]
     else:
         eid, rule, l, r = e[1]
         H.add_rxn({s: c for s, c in l}, {s: c for s, c in r}, rule=rule, edge_id=eid)
+
+
+def _apply_edit_bip(G, e):
+    """In-place edit of a bipartite INPUT graph (only coefficient edits): the arc between the species labelled e[3] and the
+    reaction node carrying edge_id e[1], in the direction of the role."""
+    assert e[0] == "coef"
+    rn = [n for n, d in G.nodes(data=True) if d.get("kind") == "reaction" and d.get("edge_id") == e[1]]
+    sn = [n for n, d in G.nodes(data=True) if d.get("kind") == "species" and d.get("label") == e[3]]
+    assert len(rn) == 1 and len(sn) == 1
+    u, v = (sn[0], rn[0]) if e[2] == "l" else (rn[0], sn[0])
+    assert G.has_edge(u, v)
+    G[u][v]["stoich"] = e[4]
 
 
 def _reanalyze(a, style):
@@ -127,27 +153,96 @@ def _reanalyze(a, style):
 
 
 def _history(case):
-    """Yield (step network as a plain case, hypergraph in its current state, the ONE analyzer after re-analysis or None on ValueError)."""
+    """Run the history in THIS process on shared objects.  Yields per step
+    (step network as a plain case, hypergraph holding the truth, re-used analyzer after re-analysis | None on ValueError,
+     brand-new analyzer on the SAME (edited) input object | None)."""
     import warnings
     warnings.filterwarnings("ignore")
     from synkit.CRN.Props.deficiency import DeficiencyAnalyzer
+    from synkit.CRN.Hypergraph.conversion import hypergraph_to_bipartite
     H = build(case)
-    a = DeficiencyAnalyzer(H)
-    nets = ADV.apply_edits(case["rxns"], case["edits"])
+    view = case.get("view", "hyper")
+    if view == "hyper":
+        Xv = H
+    else:
+        Xv = hypergraph_to_bipartite(H, integer_ids=(view == "bip_int"), include_edge_id_attr=True)
+    a = DeficiencyAnalyzer(Xv)
+    nets = ADV.apply_edits2(case["rxns"], case["edits"], case.get("iso", []))
     for k, e in enumerate([None] + list(case["edits"])):
         if e is not None:
             _apply_edit(H, e)
+            if Xv is not H:
+                _apply_edit_bip(Xv, e)
         try:
             _reanalyze(a, case.get("style", 0))
-            ok = True
+            reused = a
         except ValueError:
-            ok = False
-        yield dict(kind="history-step", rxns=nets[k], iso=[], view="hyper"), H, (a if ok else None)
+            reused = None
+        try:
+            fresh = DeficiencyAnalyzer(Xv).compute_crn_deficiency()
+        except ValueError:
+            fresh = None
+        yield dict(kind="history-step", rxns=nets[k][0], iso=nets[k][1], view="hyper"), H, reused, fresh
+
+
+def _undirected_view(G, multi):
+    """The export as an UNDIRECTED bipartite graph (same nodes, same incidences with role / stoich).  A plain nx.Graph cannot
+    hold a species that is reactant AND product of one reaction (one edge per pair): those networks need the multigraph."""
+    import networkx as nx
+    U = nx.MultiGraph() if multi else nx.Graph()
+    U.add_nodes_from(G.nodes(data=True))
+    for u, v, d in G.edges(data=True):
+        if not multi and U.has_edge(u, v):
+            return None
+        U.add_edge(u, v, **d)
+    return U
+
+
+def _analyze_api(case, Xv):
+    """Every public route to the same answers (API-surface inventory, notes/C19.md)."""
+    import warnings
+    warnings.filterwarnings("ignore")
+    from synkit.CRN.Props.deficiency import DeficiencyAnalyzer
+    from synkit.CRN.Props.stoich import stoichiometric_matrix, stoichiometric_rank
+    v = case["api"]
+    if v == "pos":
+        return DeficiencyAnalyzer(Xv, stoichiometric_matrix, stoichiometric_rank).compute_crn_deficiency()
+    if v == "kw":
+        return DeficiencyAnalyzer(crn=Xv, rank_fn=stoichiometric_rank, stoich_fn=stoichiometric_matrix).compute_crn_deficiency(run_nondegeneracy=False)
+    if v == "nostoich":                      # counts from the node split instead of the matrix shape
+        return DeficiencyAnalyzer(Xv, stoich_fn=None).compute_crn_deficiency()
+    if v == "nondeg":
+        return DeficiencyAnalyzer(Xv).compute_crn_deficiency(run_nondegeneracy=True)
+    if v == "staged":
+        return DeficiencyAnalyzer(Xv).compute_summary().compute_linkage_deficiencies().run_deficiency_one_algorithm()
+    if v == "lazy":                          # run_deficiency_one_algorithm computes the missing stages itself
+        return DeficiencyAnalyzer(Xv).run_deficiency_one_algorithm()
+    if v == "twice":                         # idempotence on an unchanged network
+        a = DeficiencyAnalyzer(Xv).compute_crn_deficiency()
+        a.as_dict()["linkage_deficiencies"].append(99)          # the caller edits a returned list / dict
+        a.as_dict()["deficiency_one_structural"]["regular"] = "x"
+        return a.compute_crn_deficiency()
+    if v in ("und", "multi"):
+        U = _undirected_view(Xv, v == "multi")
+        if U is None:
+            U = _undirected_view(Xv, True)
+        return DeficiencyAnalyzer(U).compute_crn_deficiency()
+    raise KeyError(v)
 
 
 def impl(case):
+    if "api" in case:
+        H = build(case)
+        try:
+            return _obs(_analyze_api(case, view_of(case, H)))
+        except ValueError:
+            return [2]
     if "edits" in case:
-        return [(_obs(a) if a is not None else [2]) for _, _, a in _history(case)]
+        out = []
+        for _, _, a, b in _history(case):               # re-used analyzer, then a brand-new analyzer on the same edited input
+            out.append(_obs(a) if a is not None else [2])
+            out.append(_obs(b) if b is not None else [2])
+        return out
     H = build(case)
     Xv = view_of(case, H)
     try:
@@ -233,9 +328,10 @@ def _coq_args(case):
 def coq_case(case):
     if "edits" in case:
         steps = []
-        for rxns in ADV.apply_edits(case["rxns"], case["edits"]):
-            a = _coq_args(dict(rxns=rxns, iso=[], view="hyper"))
-            steps.append("(%s)" % ", ".join(_split_args(a)))
+        for rxns, iso in ADV.apply_edits2(case["rxns"], case["edits"], case.get("iso", [])):
+            a = _coq_args(dict(rxns=rxns, iso=iso, view="hyper"))
+            st = "(%s)" % ", ".join(_split_args(a))
+            steps += [st, st]                            # re-used analyzer and brand-new analyzer: same answer
         return "run19_hist %s" % clist(steps)
     return "run19 " + _coq_args(case)
 
@@ -268,7 +364,7 @@ def oracle(case):
     H = build(case)
     Xv = view_of(case, H)
     try:
-        a = _analyze(Xv)
+        a = _analyze_api(case, Xv) if "api" in case else _analyze(Xv)
     except ValueError as e:
         if H.edges:
             return [dict(clause="complexes", detail="analysis raised ValueError on a network with reactions: %s" % e)]
@@ -277,21 +373,23 @@ def oracle(case):
 
 
 def _oracle_history(case):
-    """Every answer of the ONE re-used analyzer must (1) satisfy the property for the network as it is NOW and (2) equal the
-    answers of a fresh analyzer on a freshly built copy of that network."""
+    """Every answer — of the ONE re-used analyzer and of a brand-new analyzer on the same edited input object — must
+    (1) satisfy the property for the network as it is NOW and (2) equal the answers obtained from a freshly BUILT network
+    (new CRNHyperGraph, new analyzer: shares no object with the history)."""
     fails = []
-    for k, (step, H, a) in enumerate(_history(case)):
-        if a is None:
-            if H.edges:
-                fails.append(dict(clause="history-complexes", detail="step %d: ValueError on a network with reactions" % k))
-            continue
-        for f in _oracle_on(a, H, step):
-            fails.append(dict(clause="history-" + f["clause"], detail="step %d (same analyzer object, network edited): %s" % (k, f["detail"])))
-        fresh = impl(step)
-        same = _obs(a)
-        if _plain(fresh) != _plain(same):
-            fails.append(dict(clause="history-stale-state",
-                              detail="step %d: re-used analyzer answers %r, a fresh analyzer on the same network %r" % (k, _plain(same), _plain(fresh))))
+    for k, (step, H, a, b) in enumerate(_history(case)):
+        for who, an in (("re-used analyzer", a), ("new analyzer on the edited input object", b)):
+            if an is None:
+                if H.edges:
+                    fails.append(dict(clause="history-complexes", detail="step %d (%s): ValueError on a network with reactions" % (k, who)))
+                continue
+            for f in _oracle_on(an, H, step):
+                fails.append(dict(clause="history-" + f["clause"], detail="step %d (%s, network edited in place): %s" % (k, who, f["detail"])))
+            fresh = impl(step)
+            same = _obs(an)
+            if _plain(fresh) != _plain(same):
+                fails.append(dict(clause="history-stale-state",
+                                  detail="step %d: %s answers %r, a freshly built network gives %r" % (k, who, _plain(same), _plain(fresh))))
         if fails:
             break
     return fails[:4]
@@ -487,6 +585,10 @@ def gen_cases(tier, rng):
     cases += ADV.bridged_cycles(rng, nrand=30 if tier == "quick" else 300)
     cases += ADV.big_nets(rng, count=40 if tier == "quick" else 400)
     cases += ADV.histories(rng, nrand=50 if tier == "quick" else 500)
+    cases += ADV.same_shape_histories(rng, nrand=40 if tier == "quick" else 400)
+    cases += ADV.degenerate(rng)
+    cases += ADV.api_surface(rng)
+    cases += ADV.large(rng, sizes=(24,) if tier == "quick" else (24, 32))
     cases += ADV.multi_class(rng, count=24 if tier == "quick" else 240)
     cases += ADV.ill_conditioned(rng, count=24 if tier == "quick" else 240)
     cases.append(dict(kind="degenerate", rxns=[], iso=[], view="hyper"))
